@@ -460,14 +460,14 @@ func (t *distributedTarget) saveObject(obj object.Object, encObj encodedObject) 
 
 	leftReplicas := maxReplicas
 
-	handleECRule := func(ruleIdx int, ecRuleIdx int, payloadParts [][]byte, ecRule iec.Rule) (bool, error) {
+	handleECRule := func(pos int, ruleIdx int, ecRuleIdx int, payloadParts [][]byte, ecRule iec.Rule) (bool, error) {
 		err := t.applyECRule(t.sessionSigner, obj, ecRuleIdx, payloadParts, ecRule, objNodeLists[ruleIdx])
 		if err != nil {
 			err = fmt.Errorf("apply EC rule #%d (%s): %w", ecRuleIdx, ecRules[ecRuleIdx], err)
 			if maxReplicas == 0 {
 				return false, err
 			}
-			if leftReplicas > sumLimitsSinceRule(ruleIdx+1) {
+			if leftReplicas > sumLimitsSinceRule(pos+1) {
 				return false, newMaxReplicasError(maxReplicas, maxReplicas-leftReplicas, ruleIdx, err)
 			}
 			t.placementIterator.log.Info("PUT by EC rule failure", zap.Stringer("object", obj.Address()), zap.Error(err))
@@ -500,7 +500,7 @@ nextRule:
 			}
 
 			payloadParts := t.encodedECParts[ecRuleIdx]
-			fin, err := handleECRule(ruleIdx, ecRuleIdx, payloadParts, ecRules[ecRuleIdx])
+			fin, err := handleECRule(i, ruleIdx, ecRuleIdx, payloadParts, ecRules[ecRuleIdx])
 			if err != nil {
 				return err
 			}
@@ -512,7 +512,7 @@ nextRule:
 				if ecRules[ecRuleIdx] != ecRules[j] {
 					continue
 				}
-				fin, err := handleECRule(i, j, payloadParts, ecRules[ecRuleIdx])
+				fin, err := handleECRule(i, len(repRules)+j, j, payloadParts, ecRules[ecRuleIdx])
 				if err != nil {
 					return err
 				}
